@@ -157,7 +157,7 @@ PROPS = {
                       "command-line order, nothing after the first failing target. A third of the random cases are run twice on one runner with statuses read at run time (same texts, other outcome); for a re-used task object only what the second run returns, executes and has reason to set is judged. `run task NAME` is also exercised with a pipeline of the same name that ends the other way round. Pipeline targets may hold a stage with allow_failure that runs a failing nested pipeline.",
         "level_note": "Errored/ExitCode after a failing before-hook are not asserted (the statement speaks of commands); the non-zero value "
                       "of the process exit status is not asserted.",
-        "rule": "statuses: full sweep; grammar: as C06; targets: rapid argv of 1..4 targets. Non-trivial for C07 = status > 1, or failing "
+        "rule": "statuses: full sweep; grammar: as C06; targets: rapid argv of 1..4 targets; cli: the random task generator (hooks and condition, failing or not, up to 4 commands) through the binary - the process exit status is zero exactly when the model says the task did not fail, failing before hooks included. Non-trivial for C07 = status > 1, or failing "
                 "position > 0, or run as stage/CLI, or >= 2 targets; distinct = canonical JSON.",
         "assumptions": ["commands are shell snippets verified to work in mvdan/sh v3.1.1"],
         "parts": [
@@ -165,6 +165,7 @@ PROPS = {
             {"name": "grammar", "test": "TestGrammar", "kind": "plain", "shards": {Q: 4, T: 16}, "timeout": {Q: 400, T: 900}},
             {"name": "random", "test": "TestRandom", "checks": {Q: 800, T: 40000}, "shards": {Q: 2, T: 16}, "timeout": {Q: 400, T: 2400}},
             {"name": "targets", "test": "TestTargets", "checks": {Q: 300, T: 6000}, "shards": {Q: 4, T: 16}, "timeout": {Q: 400, T: 2400}},
+            {"name": "cli", "test": "TestCLI", "checks": {Q: 200, T: 4000}, "shards": {Q: 4, T: 16}, "timeout": {Q: 400, T: 2400}},
         ],
     },
     "C08": {
@@ -348,7 +349,7 @@ PROPS = {
                       "mutations (wrong type incl. null, delete, unknown key, duplicate), are emitted as YAML/JSON/TOML, optionally get "
                       "YAML anchors / merge keys / odd keys and a byte-level mutation (truncate, splice invalid UTF-8/NUL/BOM, replace "
                       "a byte by a syntax character); then list, validate, show <each task>, graph <each pipeline> must end within "
-                      "10 s (40 s on the retry) with exit status 0 or 1 and no panic / fatal error / goroutine dump. Stages draw depends_on from the stages declared before them, so accepted pipelines have edges (and `graph` draws them), besides the hostile forms. Contexts get odd `executable` shapes (scalars, lists, maps without bin), and the scalar alphabets hold blank-only strings.",
+                      "10 s (40 s on the retry) with a plain exit status (not ended by a signal) and no panic / fatal error / goroutine dump. Stages draw depends_on from the stages declared before them, so accepted pipelines have edges (and `graph` draws them), besides the hostile forms. Contexts get odd `executable` shapes (scalars, lists, maps without bin), and the scalar alphabets hold blank-only strings.",
         "level_note": "URL imports are not exercised (no network). Native fuzzing (thorough) cannot be pinned to VERIF_SEED; its "
                       "reproducible unit is the saved input, replayed at binary level.",
         "rule": "rapid cases; non-trivial = the document carries at least one mutation; distinct = canonical JSON of all files. Classes: "
@@ -388,7 +389,7 @@ PROPS = {
                       "visible). Loading must end within 10 s; with every reachable file intact exactly the reachable definitions are "
                       "present, each once; a missing or unparsable file inside the closure must make loading fail with a message, "
                       "outside it must not matter. All 64 splits of {2 tasks, 2 contexts, 2 variables} between the global and the "
-                      "project file must leave everything available. File names may hold glob metacharacters.",
+                      "project file must leave everything available. File names may hold glob metacharacters. A broken file may also be a symbolic link to nothing (kind dangling): unreadable as a file import, and listed by a directory import like any other .yaml entry.",
         "level_note": "URL imports are not exercised (no network).",
         "rule": "exhaustive: 530 graphs (quick: a seventh of them also with one broken file at every position and both kinds; thorough: "
                 "all); random: rapid; splits: 64. Non-trivial = cycle, diamond/repeated import, directory import, or a broken file inside "
@@ -408,7 +409,7 @@ PROPS = {
                       "fields in both forms, durations as strings and integers, booleans, numeric scalars in string positions, nested "
                       "maps, an imported second file of the same format) are written as YAML, JSON and TOML; load verdict, `list`, "
                       "`show` of every task, `graph` of every pipeline and running every task and pipeline with --raw (exit status, "
-                      "command output, per-stage summary lines with durations and colours removed, sorted) must agree pairwise. A quarter of the cases hold null values in env / variables maps and are compared between YAML and JSON only. Strings may hold characters beyond the BMP; half of the cases write JSON the ASCII-only way (surrogate-pair escapes).",
+                      "command output, per-stage summary lines with durations and colours removed, sorted) must agree pairwise. A quarter of the cases hold null values in env / variables maps and are compared between YAML and JSON only. Strings may hold characters beyond the BMP; half of the cases write JSON the ASCII-only way (surrogate-pair escapes). Numbers also appear in spellings that are not their shortest one (1.0, 2.50, 1e3), the same text in the three files.",
         "level_note": "Numeric scalars are integers |n| < 2^53 and short decimals (JSON numbers are doubles by definition); contexts with "
                       "`executable` are not generated; every YAML string is double-quoted so YAML 1.1 implicit typing cannot change content.",
         "rule": "rapid cases; non-trivial = at least one pipeline with >= 2 stages and (a scalar-form list field, or a duration, or an "
@@ -429,7 +430,7 @@ PROPS = {
                       "excluded and unrelated files; every subscribed operation on an observed path must append a line with that "
                       "EventName and EventPath within 4 s (also the 2nd..6th), no line may carry an unsubscribed event or an "
                       "unobserved path. pairs: every operation kind on every observed file A followed by a write on every other "
-                      "observed file B (names that are textual prefixes of one another included). The observed files include a dot-file and the content of a dot-directory. The select part's file may define further watchers (not run) with the same include patterns and other excludes.",
+                      "observed file B (names that are textual prefixes of one another included). The observed files include a dot-file and the content of a dot-directory. The select part's file may define further watchers (not run) with the same include patterns and other excludes. The events part also observes a directory as such and creates new files in it, mostly followed by an operation on the new file (a write right after the create is an event of its own).",
         "level_note": "Depends on the kernel's inotify delivery: extra lines of a subscribed type (a remove is preceded by an attribute "
                       "change) are accepted; a path selected only through 'X/**' matching X itself is accepted either way; a late event "
                       "is re-tried once with 12 s bounds.",
